@@ -62,3 +62,51 @@ def run_model(ctx, name, uni, max_slot, max_steps, relevant=None, sample=None, w
     except OSError:
         pass
     return r, rep
+
+
+TIMERS_CFG = """CONSTANTS
+  W = 4
+  DeltaTimeout = {dt}
+  DeltaBlock = {db}
+  DeltaFirst = {df}
+  Windows = {windows}
+INIT Init
+NEXT Next
+INVARIANTS CodedIsRule Ordered Emit
+"""
+
+
+def run_timers(ctx, name="votor_timers", windows=(1, 2, 5, 40)):
+    """VotorTimers.tla: the timeout schedule of a window: crashed-leader timeout first, then one timeout per slot in
+    slot order, one block time apart (protocol rule = accumulated sleeps of the code).  The three durations are
+    tuning constants of consensus.rs, not part of the property: they are read off the real Votor once (probe of one
+    window on the paused clock; sanity: block time > 0, 0 <= first-slice time <= block time, base timeout >= 2 DELTA)
+    and TLC then fixes the schedule of every window, which the real timers must meet to the millisecond."""
+    import json
+    import os
+    from .core import ToolError
+    wdir = os.path.join(ctx.work, name + "_probe")
+    os.makedirs(wdir, exist_ok=True)
+    probe = os.path.join(wdir, "probe.out")
+    with open(probe, "w") as f:
+        f.write('<<"CASE", ' + json.dumps(json.dumps({"s": 4, "schedule": [{"k": "timeout", "s": 4, "at": 6000}]})) + '>>\n')
+    rep0 = ctx.harness(["replay-votor-timers", "--tlc-out", probe, "--seed", ctx.seed])
+    fired = rep0["divergences"][0]["observed"]["fired"] if rep0["divergences"] else []
+    if len(fired) < 3:
+        ctx.divergence(name, "timers:count", {"fired": fired, "what": "fewer than three timeouts fired for a window"})
+        return rep0
+    a, b, g = fired[0][0], fired[1][0], fired[2][0] - fired[1][0]
+    dt, db, df = b - g, g, a - (b - g)
+    if not (db > 0 and 0 <= df <= db and dt >= 500):
+        ctx.divergence(name, "timers:shape", {"fired": fired, "inferred": {"DeltaTimeout": dt, "DeltaBlock": db, "DeltaFirst": df},
+                                              "what": "no admissible constants explain the probed schedule"})
+        return rep0
+    ctx.notes["timer_constants_ms"] = {"DeltaTimeout": dt, "DeltaBlock": db, "DeltaFirst": df}
+    r = ctx.tlc(name, "VotorTimers", TIMERS_CFG.format(dt=dt, db=db, df=df, windows="{" + ", ".join(map(str, windows)) + "}"),
+                "", workers=1, timeout=300, heap="1g")
+    rep = ctx.harness(["replay-votor-timers", "--tlc-out", r.out_path, "--seed", ctx.seed])
+    rep["model"] = name
+    if rep["covered"] != len(windows):
+        raise ToolError(f"{name}: {rep['covered']} of {len(windows)} windows replayed")
+    ctx.replay_report(name, rep, None)
+    return rep
